@@ -101,6 +101,7 @@ func (ec *exifCase) build(big bool, linked bool) gen.Built {
 	L.Big = big
 	L.R = core.NewRng(ec.lseed, 1)
 	var root *gen.Dir
+	L.NoteTags = ec.rec.NoteTags
 	L.MinLen = 32 // streams shorter than the 32 bytes the header search peeks are outside its contract (C12)
 	if linked {
 		root = ec.linkedRoot()
@@ -158,6 +159,7 @@ func (ec *exifCase) buildPart(big bool, which int) gen.Built {
 	L := ec.layout
 	L.Big = big
 	L.R = core.NewRng(ec.lseed, uint64(10+which))
+	L.NoteTags = ec.rec.NoteTags
 	d := []*gen.Dir{ec.rec.IFD0, ec.rec.Exif, ec.rec.GPS}[which]
 	return gen.BuildTIFF(d, L)
 }
